@@ -99,7 +99,7 @@ def gen_free(r):
             ops.append("w 0 %d 8 1" % r.choice([1, 2]))
             if r.random() < 0.7:
                 ops.append("net")
-    if r.random() < 0.4:
+    if r.random() < 0.12:
         # no more deliveries: the leases (100 s) of the discovered participants run out
         ops.append("adv %d" % (100 * NS + r.choice([-200 * MS, 0, 300 * MS])))
         ops.append("adv %d" % (300 * MS))
@@ -310,13 +310,14 @@ MANIFEST = {
              "conversion `sec as u64`. Proved for all snapshots and all six clock readings: the minimum never exceeds the "
              "poke period; the requested delay is at most 50 ms whenever the minimum is not negative, in particular "
              "whenever no deadline, lease or lifespan item is overdue at the reading; a negative minimum becomes a delay of "
-             "more than 1.8e19 s (witness) — recorded finding C31-negative-sleep. For the worker of one participant with "
-             "deadline/lifespan writers: along every sequence of writes (timestamps at most one period old) and timer "
-             "wakes no overdue item is left after an iteration. A blocked write whose worker wakes at least once per poke "
-             "period returns Timeout no later than max_blocking_time + 50 ms. The model is tied to the code by whole-stack "
+             "more than 1.8e19 s (witness) — recorded finding C31-negative-sleep. A blocked write whose worker wakes at "
+             "least once per poke period returns Timeout no later than max_blocking_time + 50 ms and not before "
+             "max_blocking_time. The model is tied to the code by whole-stack "
              "simulation scenarios (real worker loop with simulated clock, timer and network): every delay requested from "
              "the timer, every deadline-missed listener call and the result/latency of blocked writes are compared with "
-             "the model inside Coq, and the 50 ms / timeout bounds are checked on the implementation's own observations."),
+             "the model inside Coq, and the 50 ms / timeout bounds are checked on the implementation's own observations "
+             "(also on multi-participant scenarios with discovery, reader deadlines and lease expiry, where only the "
+             "oracle is applied)."),
     "note": ("Trusted: Coq kernel + vm_compute; hand model WorkerModel.v (checked against the code by the correspondence "
              "run); harness timing.rs (simulated timer rounds delay 0 up to 1 ns) and comparator. Axioms: none. "
              "Known finding C31-negative-sleep: inside the class (some time_until_* negative when the sleep is computed) "
